@@ -818,3 +818,46 @@ Lemma routed_to_iff : forall skip, keeps_headers skip ->
 Proof.
   intros skip Hk pre l sec. rewrite (section_after_is_last_header skip Hk). tauto.
 Qed.
+
+(* ------------------------------------------------------------------ *)
+(* the corollaries for decoders that keep the default should_skip_line
+   (every decoder of the crate does) *)
+
+Lemma default_keeps_headers : keeps_headers should_skip_line.
+Proof. exact default_skip_keeps_headers. Qed.
+
+Section DefaultSkip.
+  Context {S V : Type} (create : Z -> S) (ps : parsers S) (finish : S -> V)
+          (Hdef : forall l, skip ps l = should_skip_line l).
+
+  Theorem blank_irrelevant_default : forall l1 l2,
+    driver create ps finish (l1 ++ [] :: l2) = driver create ps finish (l1 ++ l2).
+  Proof.
+    intros l1 l2. apply blank_irrelevant; [reflexivity|]. rewrite Hdef. reflexivity.
+  Qed.
+
+  Theorem comment_irrelevant_default : forall l1 l2 c,
+    is_comment c = true -> has_nonblank l1 ->
+    driver create ps finish (l1 ++ c :: l2) = driver create ps finish (l1 ++ l2).
+  Proof.
+    intros l1 l2 c Hc Hn. apply comment_irrelevant; auto.
+    rewrite Hdef. apply comment_is_skipped. exact Hc.
+  Qed.
+
+  Lemma keeps_headers_ps : keeps_headers (skip ps).
+  Proof. intros l s H. rewrite Hdef. exact (default_skip_keeps_headers l s H). Qed.
+End DefaultSkip.
+
+(* whole-file form: text -> lines -> driver *)
+Definition decode_text {S V} (create : Z -> S) (ps : parsers S) (finish : S -> V)
+           (text : str) : V :=
+  driver create ps finish (lines_of_text text).
+
+Theorem decode_text_crlf : forall S V (create : Z -> S) ps (finish : S -> V) text,
+  decode_text create ps finish (to_crlf text) = decode_text create ps finish text.
+Proof. intros. unfold decode_text. rewrite lines_of_text_crlf. reflexivity. Qed.
+
+(* a raw line of White_Space only reaches the driver as a blank line *)
+Lemma ws_line_is_blank : forall w,
+  Forall (fun c => is_ws c = true) w -> is_blank (trim_end w) = true.
+Proof. intros w Hw. rewrite (trim_end_ws_only w Hw). reflexivity. Qed.
